@@ -336,6 +336,11 @@ func draw(t *rapid.T) Case {
 		i := rapid.IntRange(0, len(text)-1).Draw(t, "mi")
 		text = text[:i] + rapid.SampledFrom([]string{"", "x", "]", "\x00", ","}).Draw(t, "mc") + text[i+1:]
 	}
+	if gen.OneIn(t, 10, "lex") {
+		// an otherwise valid patch with one token that is almost JSON (-01, 1., True, '\x41', a trailing comma ...)
+		total++
+		text = string(gen.LexDamage(t, []byte(text), "lx"))
+	}
 	return Case{Text: text, Mutations: total}
 }
 
